@@ -18,7 +18,7 @@ PROPS_STMT = ("C01", "C02", "C05", "C07")
 
 
 class Case:
-    def __init__(self, cls, label, build, text=None, trace=None, kind=None, props=(), indent=2, text_method=None):
+    def __init__(self, cls, label, build, text=None, trace=None, kind=None, props=(), indent=2, text_method=None, result_var_may_repeat=False):
         self.cls = cls
         self.label = label
         self.build = build          # () -> (obj, labels {id(obj): label})
@@ -27,6 +27,9 @@ class Case:
         self.kind = kind            # bool | None
         self.props = props
         self.indent = indent
+        # a named functional expression shows its result variable as the last argument of its call *and* as itself: presenting
+        # the result variable more than once is harmless (every pass is idempotent on a variable); operands stay exactly-once
+        self.result_var_may_repeat = result_var_may_repeat
 
 
 def ind(i):
@@ -172,7 +175,7 @@ for is_str in (False, True):
         o.set_var(OpqExp("v", is_str))
         return o, lab(o)
     case("BasicFunctionalExpression", "named,str=%d" % is_str, b2, text=lambda i: m("v", i),
-         trace=[("child", "a1"), ("child", "a2"), ("child", "v")], kind=is_str, props=("C05", "C07", "C10"))
+         trace=[("child", "a1"), ("child", "a2"), ("child", "v")], kind=is_str, props=("C05", "C07", "C10"), result_var_may_repeat=True)
 
     def b3(is_str=is_str):
         o = E.BasicFunctionalExpression("run ecb_x", E.BasicExpressionList([OpqExp("a1"), OpqExp("a2")]), is_str_expr=is_str)
@@ -195,7 +198,7 @@ def _joy(named):
 case("BasicJoystkExpression", "unnamed", _joy(False), text=None,
      trace=[("child", "a1"), ("hook", "exp", "self"), ("hook", "joystk", "self")], kind=False, props=("C04", "C05"))
 case("BasicJoystkExpression", "named", _joy(True), text=lambda i: m("v", i),
-     trace=[("child", "a1"), ("child", "v"), ("hook", "joystk", "self")], kind=False, props=("C04", "C05"))
+     trace=[("child", "a1"), ("child", "v"), ("hook", "joystk", "self")], kind=False, props=("C04", "C05"), result_var_may_repeat=True)
 
 
 def _varptr():
@@ -232,7 +235,7 @@ for npre in (0, 2):
         return o, lab(o)
     case("BasicAssignment", "pre=%d,functional rhs" % npre, bf,
          text=lambda i, npre=npre: PRE(npre, i) + "RUN ecb_int(" + m("a1", i) + ", " + m("v", i) + ")",
-         trace=[("hook", "statement", "self"), ("child", "v"), ("child", "a1"), ("child", "v")], props=PROPS_STMT + ("C04",))
+         trace=[("hook", "statement", "self"), ("child", "v"), ("child", "a1"), ("child", "v")], props=PROPS_STMT + ("C04",), result_var_may_repeat=True)
 
     def bc(npre=npre):
         o = E.BasicComment(" hello \"x")
